@@ -420,7 +420,7 @@ class CfdpMachine(Machine):
 
     def octets_judged(self, model):
         p = model["p"]
-        return not (self.kind in ("EofPdu", "FinishedPdu") and p.get("fault") is not None and p["cc"] == R.NO_ERROR)
+        return not (self.kind in ("EofPdu", "FinishedPdu") and p.get("fault") is not None and p["cc"] in (R.NO_ERROR, 11))
 
     # -- alphabets ---------------------------------------------------------------------------------
     def inits(self, cfg):
@@ -434,7 +434,10 @@ class CfdpMachine(Machine):
             return [{"cc": 0, "dc": 0, "fs": 2, "resps": [], "fault": None},
                     {"cc": 0, "dc": 0, "fs": 2, "resps": None, "fault": None},
                     {"cc": 6, "dc": 1, "fs": 1, "resps": [], "fault": None},
-                    {"cc": 4, "dc": 1, "fs": 3, "resps": [dict(RESP_B)], "fault": b"\x31\x32"}]
+                    {"cc": 4, "dc": 1, "fs": 3, "resps": [dict(RESP_B)], "fault": b"\x31\x32"},
+                    # the second condition code that carries no fault location ("unsupported checksum type"): a fault location assigned
+                    # here is not packed, so it must not be counted either (octets not judged, lengths are)
+                    {"cc": 11, "dc": 1, "fs": 0, "resps": [], "fault": None}]
         if k == "MetadataPdu":
             return [{"closure": 0, "cs": 0, "size": 0, "src": None, "dst": None, "opts": None},
                     {"closure": 1, "cs": 3, "size": big, "src": "sä.bin", "dst": "d.bin", "opts": [dict(OPT_B)]}]
